@@ -49,7 +49,7 @@ TIERS = {
     # NFULL: all spellings exhaustively; NFULL < n <= NPOL: polarity shapes with seeded spelling; MOD: stride of the largest
     # stratum; NOPT: structures with <= NOPT nodes get CfgSelect!FullOpts, larger ones LightOpts
     "quick": {"NFULL": 2, "NPOL": 4, "DEPTH": 3, "MOD": 4, "NOPT": 2, "LAWN": 2, "LAWP": 4},
-    "thorough": {"NFULL": 4, "NPOL": 5, "DEPTH": 3, "MOD": 4, "NOPT": 3, "LAWN": 4, "LAWP": 5},
+    "thorough": {"NFULL": 4, "NPOL": 5, "DEPTH": 3, "MOD": 4, "NOPT": 3, "LAWN": 3, "LAWP": 5},
 }
 ENV0 = {"SEED": "0", "NFULL": "0", "NPOL": "0", "DEPTH": "0", "MOD": "1", "NOPT": "0",
         "OUT": "/dev/null", "CASES": "/dev/null", "OBS": "/dev/null"}
@@ -69,7 +69,7 @@ def gen(tier, seed, work):
     p = TIERS[tier]
     out = os.path.join(work, "cases.ndjson")
     r = tlc_step("gen", dict(SEED=seed, NFULL=p["NFULL"], NPOL=p["NPOL"], DEPTH=p["DEPTH"], MOD=p["MOD"], NOPT=p["NOPT"], OUT=out),
-                 timeout=2400, xmx="14g")
+                 timeout=9000, xmx="14g")
     m = re.search(r'"GEN",\s*(\d+),\s*"OPTCASES",\s*(\d+)', r.out)
     if not m:
         raise vlib.InfraError("CfgSelect gen: no count\n" + r.out[-1500:])
@@ -98,7 +98,7 @@ def local_cases(items):
 
 def laws(tier, seed):
     p = TIERS[tier]
-    r = tlc_step("laws", {"SEED": seed, "NFULL": p["LAWN"], "NPOL": p["LAWP"], "DEPTH": p["DEPTH"]}, timeout=3000, must_pass=False)
+    r = tlc_step("laws", {"SEED": seed, "NFULL": p["LAWN"], "NPOL": p["LAWP"], "DEPTH": p["DEPTH"]}, timeout=9000, must_pass=False)
     m = re.search(r'"LAWS",\s*(\d+),\s*"BAD",\s*(\d+)', r.out)
     if not m:
         raise vlib.InfraError("model failure in CfgSelect.tla step=laws rc=%s\n%s" % (r.rc, r.out[-3000:]))
@@ -140,7 +140,7 @@ def judge(cases, obs, work, tag, parts=JUDGES):
                                 "runs": [{"cfgs": [{"names": g["names"], "st": g["st"]} for g in r["cfgs"]],
                                           "reported": r["reported"], "others": r["others"], "rc": r["rc"]} for r in obs[c["id"]]]}
                                for c in cs])
-        r = tlc_step("judge", {"CASES": cp, "OBS": op, "OUT": bp}, timeout=2400, xmx="6g")
+        r = tlc_step("judge", {"CASES": cp, "OBS": op, "OUT": bp}, timeout=9000, xmx="6g")
         m = re.search(r'"JUDGED",\s*(\d+),\s*"BAD",\s*(\d+),\s*"COVERDEMANDED",\s*(\d+),\s*"NONTRIVIAL",\s*(\d+)', r.out)
         bad = vlib.read_ndjson(bp)
         if not m or int(m.group(2)) != len(bad):
